@@ -311,6 +311,58 @@ def underflow_par(fam, code):
     return dict(m=[0.05, 0.002][k % 2], c=[100.0, 500.0][(k // 2) % 2], lambda_=[1.0, 0.001][k // 4])
 
 
+def overflow_par(fam, code):
+    """parameter vector of an overflow class (spec/DistLawsOps.tla OverflowCases)"""
+    return {"Weibull": [dict(alpha=1.0, beta=100.0, gamma=0.0), dict(alpha=2.0, beta=300.0, gamma=0.5),
+                        dict(alpha=1.0, beta=1000.0, gamma=0.0), dict(alpha=10.0, beta=60.0, gamma=0.0)],
+            "ExpWeibull": [dict(alpha=1.0, beta=100.0, delta=2.0), dict(alpha=1000.0, beta=1000.0, delta=0.5)],
+            "GenGamma": [dict(m=2.0, c=50.0, lambda_=1.0), dict(m=0.5, c=1000.0, lambda_=0.001)],
+            "ScipyGamma": [dict(a=100.0, loc=0.0, scale=1.0), dict(a=1000.0, loc=0.5, scale=2.0)]}[fam][code - 1]
+
+
+def power_term(fam, par):
+    """(e, loc, scale): the documented density carries ((x - loc) / scale)^e; None for the other families"""
+    if fam == "Weibull":
+        return par["beta"] - 1.0, par["gamma"], par["alpha"]
+    if fam == "ExpWeibull":
+        return par["beta"] - 1.0, 0.0, par["alpha"]
+    if fam == "GenGamma":
+        return par["c"] * par["m"] - 1.0, 0.0, 1.0 / par["lambda_"]
+    if fam == "ScipyGamma":
+        return par["a"] - 1.0, par["loc"], par["scale"]
+    return None
+
+
+def power_overflows(fam, par, x):
+    """does the power term of the documented density exceed the double range at x (decided in log space)"""
+    pt = power_term(fam, par)
+    if pt is None or not pt[0] > 0 or not x > pt[1]:
+        return False
+    return pt[0] * math.log10((x - pt[1]) / pt[2]) > 308.26
+
+
+def upper_tail_probes(fam, par):
+    """abscissae far in the upper tail (spec/DistLawsOps.tla OverflowCases): x = loc + scale * t with
+    t = 1.5 T, 10 T, 1e6 T, T^2, T = 10^(308 / e), where the power term t^e overflows; and for every
+    unbounded support 1e3 / 1e6 times beyond the 1 - 1e-12 quantile"""
+    from . import reference as R
+
+    out = []
+    pt = power_term(fam, par)
+    if pt is not None and pt[0] > 0:
+        e, loc, scale = pt
+        lt = 308.0 / e                   # log10 T
+        for la in (lt + math.log10(1.5), lt + 1.0, lt + 6.0, 2.0 * lt):
+            if la < 150.0:
+                out.append(loc + scale * 10.0 ** la)
+    lo, hi = R.support(fam, par)
+    if hi == R.INF:
+        base = float(lo) if lo != -R.INF else R.approx_quantile(fam, par, 0.5)
+        far = R.approx_quantile(fam, par, 1 - 1e-12) - base
+        out += [base + 1e3 * far, base + 1e6 * far]
+    return [x for x in out if math.isfinite(x) and abs(x) < 1e200]
+
+
 UNDERFLOW_X = [0.01, 0.02, 0.05, 0.1, 0.2, 0.3, 0.5, 0.7, 0.8, 0.9, 0.95, 0.99, 1.0]     # x / scale
 
 
@@ -377,6 +429,23 @@ def edge_variants_same(vc, fam, par, x, fv):
     return bool(D.compare(a, fv)[0] and D.compare(b, fv)[0] and D.compare(c, [fv, fv])[0])
 
 
+def ref_cdf(fam, par, x):
+    """documented cdf (harness/reference.py); mpmath's incomplete gamma function does not terminate for an
+    argument like 1e1600, so the two gamma-type families are cut off far in the upper tail: for
+    y >= max(1e4, 100 a) the complement Q(a, y) <= y^(a-1) e^(-y) / Gamma(a) * y / (y - a + 1) < 1e-3000
+    (a <= 1000), i.e. the documented value is 1 to the 30 digits carried"""
+    from . import reference as R
+
+    if fam in ("GenGamma", "ScipyGamma"):
+        a = par["m"] if fam == "GenGamma" else par["a"]
+        lo, _ = R.support(fam, par)
+        if R.M(x) > lo:
+            y = (R.M(par["lambda_"]) * R.M(x)) ** R.M(par["c"]) if fam == "GenGamma" else (R.M(x) - lo) / R.M(par["scale"])
+            if a <= 1000 and y >= max(1e4, 100 * a):
+                return R.M(1)
+    return R.cdf(fam, par, x)
+
+
 def laws_record(vc, rid, case):
     """tabulate one real distribution object and attach the documented reference values"""
     from . import reference as R
@@ -385,7 +454,8 @@ def laws_record(vc, rid, case):
     rec = dict(id=rid, kind="laws", fam=fam, cl=cl, ext=list(case.get("ext", [0, 0])), rep=case["rep"], exc="")
     with warnings.catch_warnings(), np.errstate(all="ignore"):
         warnings.simplefilter("ignore")
-        xs, s, lo, hi = make_grid(fam, par, case["npts"], case.get("xextra", ()))
+        xs, s, lo, hi = make_grid(fam, par, case["npts"], list(case.get("xextra", ())) + upper_tail_probes(fam, par))
+        rec["novf"] = sum(1 for x in xs if power_overflows(fam, par, x))
         xa = np.array(xs, dtype=float)
         try:
             dist = D.build(vc, fam, par)
@@ -416,7 +486,7 @@ def laws_record(vc, rid, case):
             X = R.M(x)
             sd = -1 if X < lo else (1 if X > hi else 0)
             side.append(sd)
-            fr = R.cdf(fam, par, x)
+            fr = ref_cdf(fam, par, x)
             Fref.append(float(fr))
             fin = bool(np.isfinite(F[i]))
             Ffin.append(fin)
@@ -628,6 +698,9 @@ def law_cases(ctx, classes):
     out = []
     for c in classes:
         ext = list(c.get("ext", [0, 0]))
+        if ext[0] == 8:  # overflow class: a fixed parameter vector with a large shape; the probes are added to every table
+            out.append(dict(fam=c["fam"], cl=list(c["cl"]), ext=ext, rep=0, npts=npts, par=overflow_par(c["fam"], ext[1])))
+            continue
         if ext[0] == 9:  # underflow class: a fixed parameter vector, grid reaching into the underflow region
             par = underflow_par(c["fam"], ext[1])
             scale = par["alpha"] if c["fam"] == "ExpWeibull" else 1.0 / par["lambda_"]
@@ -711,6 +784,8 @@ def judge(ctx, vc, ocases, lcases, summary=True, hists=(), icases=(), ahists=())
     for c, r in zip(lcases, lrecs):
         ctx.case("laws " + laws_key(c), nontrivial=r["exc"] == "" and len(r.get("dslope", [])) > 0)
         for clause in failing.get(r["id"], []):
+            if clause == "UpperTailProbed":
+                raise Machinery(f"overflow class {laws_key(c)}: only {r.get('novf')} grid points in the overflow region")
             ctx.violation(clause, laws_key(c), laws_detail(r, clause), replay=dict(kind="laws", case=c))
     if summary:
         for clause in failing.get(allrecs[-1]["id"], []):
@@ -730,6 +805,9 @@ def laws_detail(r, clause):
         return f"kexc={r['kexc']} kshape={r['kshape']} krel={r['krel']}e-15"
     if clause == "CdfMatchesDocumentedFormula":
         return f"max |F-Fref| = {max(abs(a - b) for a, b in zip(r['Fq'], r['Frq']))}e-9"
+    if clause == "FiniteValues":
+        bad = [i for i, (a, c) in enumerate(zip(r["Ffin"], r["fcls"])) if not a or c == 2]
+        return f"cdf not finite / pdf nan or wrongly infinite at grid points {bad[:6]} of {r['npts']} (par={r.get('par')})"
     if clause == "PdfMatchesDocumentedFormula":
         bad = [(a, b) for a, b, c in zip(r["frel"], r["fabs"], r["fcls"]) if c == 0 and a > 10000 and b > 1000]
         return f"(rel,abs)e-12 worst {max(bad) if bad else None}"
@@ -843,7 +921,10 @@ def run(ctx):
                 "(quick: orthogonal array, canonical numbers; thorough: all classes x 6 concretisations, 5 of them seeded random); each is tabulated on a grid over the "
                 "support, its boundary (down to boundary + 1e-9 inter-quartile ranges), zero and negative x, probabilities "
                 "from 1e-16 to 1 - 1e-12; plus TLC-enumerated extreme levels of one slot (shape 0.1 / 0.3 / 0.5 / 25, "
-                "scale 1e-8 / 1e8); non-trivial = table has derivative triples; distinct = "
+                "scale 1e-8 / 1e8), the underflow classes and the overflow classes (shape 60 .. 1000); every table of a family "
+                "whose density carries a power t^e of t = (x - loc) / scale is also probed at t = 1.5 T .. T^2, T = 10^(308 / e), "
+                "where the power exceeds the double range, every unbounded support 1e3 / 1e6 times beyond its 1 - 1e-12 "
+                "quantile; non-trivial = table has derivative triples; distinct = "
                 "distinct (family, class, parameter vector)")
     ctx.trusted = ["TLC 1.8 evaluating spec/ParamRoutingOps.tla, spec/DistLawsOps.tla clause operators",
                    "mpmath 1.3 (30 digits) closed forms of the documented formulas in harness/reference.py "
